@@ -3,6 +3,8 @@ import TonicModel.Basic.ConnScript
 import TonicModel.Basic.ErrChain
 import TonicModel.Model.Reconnect
 import TonicModel.Spec.Reconnect
+import TonicModel.Model.ReconnectAbandon
+import TonicModel.Spec.ReconnectAbandon
 import Driver.C14Bal
 namespace DriverC14
 open Proto ConnScript Reconnect ErrChain
@@ -44,12 +46,32 @@ zero-deadline call. -/
 def opZ? (zeroAll : Bool) (c : Char) : Option Op :=
   if c = 'd' ∨ c = 'g' then some .die
   else if c = 'z' then some .callZero
-  else if c = 'c' ∨ c = 'n' ∨ c = 's' ∨ c = 'l' then some (if zeroAll then .callZero else .call)
+  -- `a`: a call abandoned by the application once it is with the peer: for everybody else an
+  -- ordinary call (dimension audit; `harness/src/c14_x.rs`)
+  else if c = 'c' ∨ c = 'n' ∨ c = 's' ∨ c = 'l' ∨ c = 'a' then some (if zeroAll then .callZero else .call)
   else if c = 'i' ∨ c = 'j' then some (if zeroAll then .callZero else .callDie)
   else if c = 'p' ∧ !zeroAll then some .pair
   else none
 
 def op? (c : Char) : Option Op := opZ? false c
+
+/-- `e2d` with the keep-alive options (`k`): `h`, the peer goes silent, is the fault `d` by the
+next quiescent point (the client has given the connection up). Without `k`: no such op. -/
+def opK? (keepAlive zeroAll : Bool) (c : Char) : Option Op :=
+  if c = 'h' then (if keepAlive then some .die else none) else opZ? zeroAll c
+
+/-- The endpoint options of `e2d`. `z n s l` = `Endpoint::timeout`, `q` = `concurrency_limit(1)`,
+`r` = `rate_limit`; added by the dimension audit, all of them invisible to the property: `y` a
+connector that insists on `poll_ready` before `call`, `k` HTTP/2 keep-alive, `o` origin and user
+agent, `x` a user executor, `w` window sizes and socket options, `b` `buffer_size(1)`. -/
+def optOk (c : Char) : Bool :=
+  c = 'z' ∨ c = 'n' ∨ c = 's' ∨ c = 'l' ∨ c = 'q' ∨ c = 'r' ∨
+  c = 'y' ∨ c = 'k' ∨ c = 'o' ∨ c = 'x' ∨ c = 'w' ∨ c = 'b'
+
+/-- `net`: the constructor of the `Endpoint` (`tcp` / `uds` = `Endpoint::from_shared`); which one
+is used is invisible to the property. -/
+def netCtorOk (t : String) : Bool :=
+  ["tcp", "uds", "tcps", "tcpn", "tcpb", "tcpc", "uds2", "udss", "udss2", "udsp", "udst"].contains t
 
 def b01 (b : Bool) : String := if b then "1" else "0"
 
@@ -363,9 +385,46 @@ def parseNBuild (t : String) : Option NBuild :=
   else if t = "build:hang" then some .hang
   else (natAfter "build:err" t).map .error
 
-def handle (case obs : List String) : String × String :=
+/-! e2a: scripts with abandoned calls -/
+
+def aop? (c : Char) : Option AOp :=
+  if c = 'c' then some .call else if c = 'd' then some .die else if c = 'A' then some .abandon else none
+
+def aevTok : AEv → String
+  | .die => "d"
+  | .abandoned a => s!"A:a{a}"
+  | .call res a => evTok (.call res a)
+
+def parseAEv (t : String) : Option AEv :=
+  match natAfter "A:a" t with
+  | some a => some (.abandoned a)
+  | none =>
+    match parseEv t with
+    | some .die => some .die
+    | some (.call res a) => some (.call res a)
+    | some (.pair _ _ _) => none
+    | none => none
+
+def handleCase (case obs : List String) : String × String :=
   match case with
   | "bal" :: rest => DriverC14Bal.handle rest obs
+  | ["e2a", m, outsS, opsS] =>
+    if (chars outsS).any (fun c => c = 'T' ∨ c = 't') then bad else
+    match mode? m, parseAll (fun s => (s.toList.head?).bind outcome?) ((chars outsS).map (String.singleton ·)),
+          parseAll (fun s => (s.toList.head?).bind aop?) ((chars opsS).map (String.singleton ·)) with
+    | some isLazy, some outs, some ops =>
+      let t := Reconnect.Abandon.run isLazy outs ops
+      let model := String.intercalate " "
+        (buildTok { build := t.build, buildAttempts := t.buildAttempts, evs := [] } :: t.evs.map aevTok)
+      let v := match obs with
+        | b :: evs =>
+          match parseBuild b, parseAll parseAEv evs with
+          | some (br, a), some evs =>
+            verdict (Spec.ReconnectAbandon.clausesA isLazy outs ops { build := br, buildAttempts := a, evs := evs })
+          | _, _ => "fail:unparsable-observation"
+        | [] => "fail:unparsable-observation"
+      (model, v)
+    | _, _, _ => bad
   | ["unit", m, envS, opsS] =>
     match mode? m, ansOfChars 0 (chars envS), parseAll (fun s => (s.toList.head?).bind uop?) ((chars opsS).map (String.singleton ·)) with
     | some isLazy, some env, some ops =>
@@ -443,7 +502,7 @@ def handle (case obs : List String) : String × String :=
       (model, v)
     | _, _ => bad
   | ["net", tr, m, script] =>
-    if tr ≠ "tcp" ∧ tr ≠ "uds" then bad else
+    if !netCtorOk tr then bad else
     match mode? m, script.splitOn "b" with
     | some isLazy, [preS, postS] =>
       match parseAll (fun s => (s.toList.head?).bind nop?) (preS.toList.map (String.singleton ·)),
@@ -464,9 +523,11 @@ def handle (case obs : List String) : String × String :=
   | ["e2d", m, et, outsS, opsS] =>
     -- Endpoint options: z/n/s/l = Endpoint::timeout(0 / 1 ns / short / long), q = concurrency_limit(1),
     -- r = rate_limit; `-` = none. Only a zero timeout changes what callers may see.
-    if et ≠ "-" ∧ !(et.toList.all fun c => c = 'z' ∨ c = 'n' ∨ c = 's' ∨ c = 'l' ∨ c = 'q' ∨ c = 'r') then bad else
+    if et ≠ "-" ∧ !(et.toList.all optOk) then bad else
+    -- a one-slot buffer cannot hold the two requests of `p` the way the harness issues them
+    if et.toList.contains 'b' ∧ opsS.toList.contains 'p' then bad else
     match mode? m, parseAll (fun s => (s.toList.head?).bind outcome?) ((chars outsS).map (String.singleton ·)),
-          parseAll (fun s => (s.toList.head?).bind (opZ? (et.toList.contains 'z'))) ((chars opsS).map (String.singleton ·)) with
+          parseAll (fun s => (s.toList.head?).bind (opK? (et.toList.contains 'k') (et.toList.contains 'z'))) ((chars opsS).map (String.singleton ·)) with
     | some isLazy, some outs, some ops =>
       let t := E2E.run true isLazy outs ops
       let model := String.intercalate " " (buildTok t :: t.evs.map evTok)
@@ -476,7 +537,8 @@ def handle (case obs : List String) : String × String :=
       (model, v)
     | _, _, _ => bad
   | [kind, m, outsS, opsS] =>
-    if kind ≠ "e2e" ∧ kind ≠ "e2n" then bad else
+    -- `e2c`: `Channel::new` / `Channel::connect` called directly (same script, same prediction)
+    if kind ≠ "e2e" ∧ kind ≠ "e2n" ∧ kind ≠ "e2c" then bad else
     match mode? m, parseAll (fun s => (s.toList.head?).bind outcome?) ((chars outsS).map (String.singleton ·)),
           parseAll (fun s => (s.toList.head?).bind op?) ((chars opsS).map (String.singleton ·)) with
     | some isLazy, some outs, some ops =>
@@ -488,5 +550,11 @@ def handle (case obs : List String) : String × String :=
       (model, v)
     | _, _, _ => bad
   | _ => bad
+
+/-- A run of the real code that ended in a panic (the harness reports the whole case as `panic`)
+fails the property's "without panicking" whatever else happened. -/
+def handle (case obs : List String) : String × String :=
+  match handleCase case obs with
+  | (model, v) => if obs = ["panic"] ∧ model ≠ "bad-case" then (model, "fail:completes-without-panicking") else (model, v)
 
 end DriverC14
